@@ -16,6 +16,7 @@ import (
 	"regexp"
 	"sort"
 	"strings"
+	"syscall"
 	"time"
 
 	"github.com/ErdemOzgen/blackdagger/internal/persistence"
@@ -63,19 +64,55 @@ func New(location string, latestStatusToday bool) *JSONDB {
 }
 
 func (s *JSONDB) Update(dagFile, requestID string, status *model.Status) error {
-	f, err := s.FindByRequestID(dagFile, requestID)
-	if err != nil {
+	// The process that recorded the run may be replacing the run's file by
+	// its compacted copy at this moment (the end of the run). Compact holds
+	// a lock on the file from before it reads it until it has removed it:
+	// take the same lock on the file that was found, and if that name no
+	// longer leads to the file that was locked, look the run up again.
+	for attempt := 1; ; attempt++ {
+		f, err := s.FindByRequestID(dagFile, requestID)
+		if err != nil {
+			return err
+		}
+		unlock, current := lockHistoryFile(f.File)
+		if !current && attempt < maxListings {
+			unlock()
+			continue
+		}
+		err = s.appendStatus(f.File, status)
+		unlock()
 		return err
 	}
-	w := &writer{target: f.File}
+}
+
+func (s *JSONDB) appendStatus(file string, status *model.Status) error {
+	w := &writer{target: file}
 	if err := w.open(); err != nil {
 		return err
 	}
 	defer func() {
-		s.cache.Invalidate(f.File)
+		s.cache.Invalidate(file)
 		_ = w.close()
 	}()
 	return w.write(status)
+}
+
+// lockHistoryFile takes an exclusive advisory lock on the file and reports
+// whether the name still leads to the file that was locked (it does not when
+// the file was removed or replaced while the lock was waited for). The lock
+// is best effort: where it cannot be had, the caller proceeds without it.
+func lockHistoryFile(file string) (unlock func(), current bool) {
+	f, err := os.Open(file)
+	if err != nil {
+		return func() {}, false
+	}
+	unlock = func() { _ = f.Close() }
+	if err := syscall.Flock(int(f.Fd()), syscall.LOCK_EX); err != nil {
+		return unlock, true
+	}
+	locked, err1 := f.Stat()
+	named, err2 := os.Stat(file)
+	return unlock, err1 == nil && err2 == nil && os.SameFile(locked, named)
 }
 
 func (s *JSONDB) Open(dagFile string, t time.Time, requestID string) error {
@@ -290,6 +327,10 @@ func (s *JSONDB) RemoveOld(dagFile string, retentionDays int) error {
 }
 
 func (s *JSONDB) Compact(original string) error {
+	// A status update appended to the original between the read below and
+	// its removal would be lost: hold the lock Update takes (see there).
+	unlock, _ := lockHistoryFile(original)
+	defer unlock()
 	status, err := ParseFile(original)
 	if err == io.EOF {
 		return nil
